@@ -141,10 +141,15 @@ func runProc(c Case) (lit string, obs Obs, nontrivial bool) {
 		dec.UseNumber()
 		var got interface{}
 		if derr := dec.Decode(&got); derr == nil && !dec.More() {
-			want := map[string]interface{}{"created_at": timeText, "event_type": jgen.Sanitize(ty), "payload": mv.Expect()}
-			if reflect.DeepEqual(got, want) {
-				if t2, perr := time.Parse(time.RFC3339Nano, got.(map[string]interface{})["created_at"].(string)); perr == nil && t2.Equal(tm) {
-					obs.Decode = 1
+			// exactly the three members; created_at read back with Go's time parser must be the event's instant,
+			// event_type and payload must be the expected images
+			if m, isObj := got.(map[string]interface{}); isObj && len(m) == 3 {
+				ts, isStr := m["created_at"].(string)
+				t2, perr := time.Parse(time.RFC3339Nano, ts)
+				if isStr && perr == nil && t2.Equal(tm) && reflect.DeepEqual(m["event_type"], jgen.Sanitize(ty)) && reflect.DeepEqual(m["payload"], mv.Expect()) {
+					if _, hasP := m["payload"]; hasP {
+						obs.Decode = 1
+					}
 				}
 			}
 		}
